@@ -418,7 +418,14 @@ def assemble(unit, canary=False, mutant=None, check_fp=True):
             if "arg_of" in kv and kv["arg_of"] != (xc["arg_of"] or "-"):
                 raise Undecided(f"lost-anchor: {it.path}: closure #{k} is an argument of `{xc['arg_of']}`, expected `{kv['arg_of']}`")
             if "params" in kv and kv["params"] != ";".join(xc["params"]):
-                raise Undecided(f"lost-anchor: {it.path}: closure #{k} params `{';'.join(xc['params'])}`, expected `{kv['params']}`")
+                # renamed closure parameters are followed (positionally) when both lists are plain identifiers of equal length
+                exp = [q for q in kv["params"].split(";") if q]
+                act = list(xc["params"])
+                ident = re.compile(r"^[A-Za-z_][A-Za-z0-9_]*$")
+                if len(exp) == len(act) and all(ident.match(q) for q in exp + act):
+                    c["rename"] = dict(zip(exp, act))
+                else:
+                    raise Undecided(f"lost-anchor: {it.path}: closure #{k} params `{';'.join(xc['params'])}`, expected `{kv['params']}`")
         for k, c in it.loops.items():
             if k >= len(x["loops"]):
                 raise Undecided(f"lost-anchor: {it.path}: loop #{k} not found")
@@ -469,6 +476,10 @@ def assemble(unit, canary=False, mutant=None, check_fp=True):
         for k, c in it.closures.items():
             xc = x["closures"][k]
             head = " ".join(strip_comment(t).strip() for _, t in c["lines"]).strip()
+            if c.get("rename"):
+                # inside the closure head the parameter names shadow everything else, so a whole-word rename is exact
+                rn = c["rename"]
+                head = re.sub(r"\b(" + "|".join(re.escape(q) for q in rn) + r")\b", lambda mm: rn[mm.group(1)], head)
             tags = [tg for _, t in c["lines"] for tg in parse_tags(t)]
             org = dict(org_base, kind="closure", k=k, line=c["lines"][0][0] if c["lines"] else it.line, tags=tags)
             if xc["body_is_block"]:
